@@ -162,8 +162,8 @@ def finish(pid, tier, seed, mod, results, wall, t_compile, flat, replay):
         os.makedirs(os.path.join(VERIF, 'evidence'), exist_ok=True)
         json.dump(ev, open(os.path.join(VERIF, 'evidence', pid + '.json'), 'w'), indent=1, default=str)
         json.dump(recs, open(os.path.join(harness.scratch(), pid + '.records.json'), 'w'), default=str)
-        if os.environ.get('VERIF_KEEP_RECORDS'):
-            json.dump(recs, open(os.environ['VERIF_KEEP_RECORDS'], 'w'), indent=1, default=str)
+    if os.environ.get('VERIF_KEEP_RECORDS'):
+        json.dump(recs, open(os.environ['VERIF_KEEP_RECORDS'], 'w'), indent=1, default=str)
     print('%s tier=%s obligations=%d discharged=%d optional=%d/%d witnesses=%d/%d twins=%d/%d known=%d violations=%d inconclusive=%d engine_errors=%d validated=%d wall=%.1fs (compile %.1fs, solver %.1fs)' % (
         pid, tier, oblig, disch, cov['optional_discharged'], cov['optional_attempted'], cov['witnesses_sat'], cov['vacuity_witnesses'], cov['mutant_twins_sat'], cov['mutant_twins'], len(seen), len(viol), len(inconc), len(eng), validated, wall, t_compile, solver_time))
     if viol: return 1
